@@ -79,7 +79,7 @@ def run_one(cfg):
         if cfg["env"] is not None:
             env["PYSNARK_BACKEND"] = cfg["env"]
         env["QAPTOOLS_BIN"] = common.stub_dir("qaptools")
-        env["PYTHONPATH"] = os.pathsep.join([os.path.join(common.HARNESS, "fbshim"), "/repo"])
+        env["PYTHONPATH"] = os.pathsep.join([os.path.join(common.HARNESS, "fbshim"), common.REPO])
         pr = subprocess.run([common.PY, "-c", CHILD, json.dumps(cfg)], cwd=d, env=env, capture_output=True, text=True, timeout=120)
         for l in pr.stdout.splitlines():
             if l.startswith("@@"):
